@@ -35,7 +35,8 @@ namespace nmtools::array
         using resolver_t = eval_result_t<>;
         return eval(a,context_t{},output_t{},meta::as_value_v<resolver_t>);
         #else
-        auto slices_pack = nmtools_tuple{slices...};
+        // spell the element types: with a single slice CTAD would pick the copy deduction candidate
+        auto slices_pack = nmtools_tuple<slices_t...>{slices...};
         return apply_slice(array,slices_pack);
         #endif
     }
